@@ -29,6 +29,7 @@ type built struct {
 	Weak      bool  // the dialled connection carries TLS: only ciphertext lengths are seen there
 	CipherW   int64 // ciphertext bytes written to / read from the dialled connection (whole connection)
 	CipherR   int64
+	CipherWN  int64 // number of writes on the dialled connection in the tunnel phase
 	TReq      int64 // time of the proxy's first read on the client connection (lower bound of readRequest's t0)
 	TResp     int64 // time of its last read before the reply (lower bound of writeResponse's time.Now())
 	Inferred  int
@@ -201,6 +202,7 @@ func buildTrace(sc *scenario) built {
 					b.CipherR += int64(e.N)
 				case "W":
 					b.CipherW += int64(e.N)
+					b.CipherWN++
 				case "C":
 					// (tls.Conn.CloseWrite is a close_notify record, i.e. a plain write here: whether the
 					// client-to-target copier has finished cannot be seen on this side)
